@@ -301,3 +301,25 @@ package bgv
 //@ decodes ParametersLiteral.UnmarshalJSON
 //@   property C08
 //
+
+// ---- a missing evaluation key is reported as an error, never a panic (property C05), in both styles:
+// ---- MulRelin without a key set returns a non-nil error and dereferences nothing that is nil (finding
+// ---- F43: the scale-invariant tensoring asked the nil key-set interface for the key)
+//@ afunc Evaluator.modUpAndNTT
+//@   trusted opaque at the abstract level (basis extension of the operands to the auxiliary ring): writes its output element only
+//@   assigns ctQ1
+//@ afunc Evaluator.tensorLowDeg
+//@   trusted opaque at the abstract level (the tensor on both bases): writes its output elements only
+//@   assigns ct2Q0, ct2Q1
+//@ afunc Evaluator.quantize
+//@   trusted opaque at the abstract level (division by Q, multiplication by T): writes its output polynomials only
+//@   assigns c2Q1, c2Q2
+//@ afunc Evaluator.MulRelin#nokey
+//@   property C05
+//@   dyn op1 *rlwe.Ciphertext
+//@   nilsafe
+//@   case len(op0.Value) == 2 && len(op1.Value) == 2 && len(opOut.Value) == 2 && !eval.ScaleInvariant ; set eval.Evaluator.EvaluationKeySet = nil
+//@   case len(op0.Value) == 2 && len(op1.Value) == 2 && len(opOut.Value) == 2 && eval.ScaleInvariant ; set eval.Evaluator.EvaluationKeySet = nil
+//@   requires isntt(op0.Value[0]) && isntt(op0.Value[1]) && isntt(op1.Value[0]) && isntt(op1.Value[1]) && mexp(op0.Value[0]) == 0 && mexp(op0.Value[1]) == 0 && mexp(op1.Value[0]) == 0 && mexp(op1.Value[1]) == 0
+//@   requires uf_rnsmexp(contentid(eval.tMontgomery)) == 2
+//@   ensures !isnil(err)
